@@ -396,7 +396,12 @@ def run(ctx):
     r08_3(prog, r3)
     r4 = Rule("R08.4", "a failing verdict of a member or delegated checker always reaches the return value of the walker", floor=5)
     r08_4(prog, r4)
-    return [r1, r2, r3, r4, r08_5(prog)]
+    # R08.6: asn_check_constraints terminates: exact rule over the loops reachable from the constraint checkers
+    from . import termination
+    cg = prog.callgraph()
+    roots = {f.key for f in prog.funcs.values() if f.name.endswith("_constraint") or f.name == "asn_check_constraints"}
+    r6 = termination.rule_for(prog, "R08.6", "the constraint checkers", cg.reachable(roots), 8)
+    return [r1, r2, r3, r4, r08_5(prog), r6]
 
 
 GENERIC_CHECKERS = ("asn_generic_no_constraint", "asn_generic_unknown_constraint")
